@@ -19,7 +19,7 @@ def plan(prop, tier):
     q = tier == "quick"
     extra_prof = [("hourly", "solar_tf"), ("daily", "custommaps")] if q else []      # profiles C01's quick tier also fits: the clauses owned here are judged on them too
     if prop == "C04":
-        return dict(scen=[("gate", gated + extra_prof), ("gate2", gated if not q else gated[:1]), ("refit", gated), ("free", gated if not q else gated[:2])], per=(6 if q else 16),
+        return dict(scen=[("gate", gated + extra_prof), ("gate2", gated if not q else gated[:2]), ("refit", gated), ("free", gated if not q else gated[:2])], per=(6 if q else 16),
                     rule="histories new/fit/sweep/save/restart/load over baselines {qualified, too short, poor fit, gaps, other tz} x ignore flags; "
                          "a sweep predicts every (report kind, ignore flag, aggregation); distinct = distinct (abstract history, family, profile)" + "; plus free-form histories (template T_free: every operation allowed at every position, 300 behaviours per family from tlc -simulate with the invariants checked along them, depth 12) chosen by feature cover",
                     extra=["C04 is decided for the three families that have a gate (daily, billing, hourly); the CalTRACK hourly wrapper has none",
